@@ -17,7 +17,7 @@ checks = {
    text="The same chain text is executed in 4 worlds whose only differences are how the input stream is cut into blocks and segments, how many parallel chains the query processor clones, and the scheduler's interleaving of those chains; row sequences (where the chain defines an order), row multisets or group maps must be identical.",
    note=TRUST + " Absolute per-command semantics is not claimed (pure input property). Chains end at the first aggregation or mvexpand (their row order is undefined)."),
  "C04": dict(level="exploration", ref="DESIGN.md §4 C04",
-   technique="deterministic simulation: seeded ingest/flush/rotate/restart histories with generated stats / group-by / timechart queries after every step, compared with a reference aggregator over the model's flushed events",
+   technique="deterministic simulation: seeded ingest/flush/rotate/restart histories with generated stats (incl. values/list) / group-by / timechart queries after every step, compared with a reference aggregator over the model's flushed events",
    text="The segmentation of the data (which decides whether ingest-time statistics, running block results or merged segment results answer) is explored by seeded histories on the real node; every stats/timechart answer is compared with a small reference aggregator (exact for count/min/max, 1e-9 for sums and averages, documented generous tolerances for dc and percentiles) and any node panic or hang on a legal query is a violation.",
    note=TRUST + " Agile tree disabled here (acceleration-vs-raw is C03's question). Measures over numeric fields only; the group of events lacking a by-field is unconstrained."),
  "C05": dict(level="exploration", ref="DESIGN.md §4 C05",
@@ -41,15 +41,15 @@ checks = {
    text="Three enumerations per seeded history: crash points (end-to-end: recovered datapoints/metric names/segment metadata must include everything whose append completed, be per-series prefixes, contain nothing unwritten, bit-exact), truncations and single-byte corruptions of the WAL files (the real iterators must yield a prefix of the intact sequence). Thorough covers the spaces completely for the explored histories.",
    note=TRUST + " Datapoints are required to be reachable only for series whose tags tree had been flushed (the tags tree has no WAL of its own; that gap is reported in DESIGN, not counted against C10)."),
  "C11": dict(level="exploration", ref="DESIGN.md §4 C11",
-   technique="deterministic simulation: seeded schedule search (baton scheduler, PRNG-driven pre-emption at every lock/channel/fs yield point) over concurrent ingest, timer flushes, rotation and searches, with an interval oracle over invoke/return sequence numbers, wait-for-graph deadlock detection, spin/hang watchdogs",
+   technique="deterministic simulation: seeded schedule search (baton scheduler, PRNG-driven pre-emption at every lock/channel/fs yield point) over concurrent ingest, timer flushes, rotation, searches and memory-limiter evictions (fault: simulator-chosen memory budget), with an interval oracle over invoke/return sequence numbers, wait-for-graph deadlock detection, spin/hang watchdogs",
    text="The interleaving of ingesters, the real idle/max-wait flush loops, a rotator and searchers is the choice sequence of a seeded scheduler that owns which goroutine runs; each search is judged by interval rules (no event twice, nothing from the future, everything whose flush completed before the search began, exact contents after quiescence); deadlocks, hangs and panics of the node are violations. Exploration is the right level for an unbounded schedule space.",
    note=TRUST + " Because tasks are serialised by the baton, raw unsynchronised memory accesses are not observed: the 'no data races' clause is decided only through its visible effects, lock-order deadlocks and crashes."),
  "C13": dict(level="exploration", ref="DESIGN.md §4 C13",
-   technique="deterministic simulation: seeded create/ingest/alias/delete/restart histories over several organisations and prefix-related index names, every query form checked against a tenant/index reference model",
+   technique="deterministic simulation: seeded create/ingest/alias/delete/restart histories over several organisations and prefix-related index names (wildcards in leading, inner and trailing position), every query form checked against a tenant/index reference model",
    text="Histories over 2-3 organisations and index names that are prefixes of each other are executed on the real node (real virtual-table, alias, delete and start-up code); after every step searches and group-by counts for every (organisation, index expression) must return exactly the model's events of the indexes of that organisation that the expression names.",
    note=TRUST + " Organisations are selected through the myid parameter of the real entry points (the open-source HTTP layer always uses organisation 0)."),
  "C14": dict(level="fault_enumeration", ref="DESIGN.md §4 C14",
-   technique="deterministic simulation on the fake clock with crash-point enumeration: segments placed around the retention horizon, the real time-based pass, a crash after every mutating fs call of the pass, restart and repeated pass, store digest compared with the uninterrupted run",
+   technique="deterministic simulation on the fake clock with crash-point enumeration: segments placed around the retention horizon, the real time-based pass, a crash after every mutating fs call of the pass, restart and repeated pass, store digest compared with the uninterrupted run; segments tied on their newest instant; the node's in-memory segment lists must agree after a pass",
    text="Victims must be exactly the rotated segments whose newest event is older than the horizon (decided at pass time on the simulated clock); survivors stay fully searchable, deleted data is gone, counts agree; for every crash point inside the pass the restarted node repeats the pass and must reach the same store digest (segment directories, segmeta.json, metrics meta, table names) as the uninterrupted run. Exhaustive over the pass's fs calls per explored history in the thorough tier.",
    note=TRUST + " Only the time-based pass is driven (volume- and inode-based passes are not). Segments are kept at least two minutes away from the horizon."),
  "C15": dict(level="exploration", ref="DESIGN.md §4 C15",
@@ -57,11 +57,11 @@ checks = {
    text="Bulk bodies mixing valid and invalid actions go through the real fasthttp router and handler; a quarter of the cases are >2 MB requests whose in-line flush meets a store fault chosen by the plan at the disk seam. The oracle relates every response item to its action and to the documents found afterwards (created <=> searchable once, failed => absent, errors flag, locality of bad actions); under faults the relaxation is narrow: a failed item may be absent, a created item must be present.",
    note=TRUST + " The 1000-seg-store limit is not driven. Unknown/delete actions are generated without a following document line."),
  "C19": dict(level="exploration", ref="DESIGN.md §4 C19",
-   technique="deterministic simulation with a path-policing disk seam: hostile names driven through every API that derives a path from request data; every file-system call of the real code is checked at the seam against the allowed roots, plus a sentinel tree around the data directory",
+   technique="deterministic simulation with a path-policing disk seam: hostile names (plain, percent-encoded once and twice, deep traversal) driven through every API that derives a path from request data; every file-system call of the real code is checked at the seam against the allowed roots, plus a sentinel tree around the data directory",
    text="Because every os call of the repository goes through the simulated disk seam, the oracle sees each operation the real code attempts - including ones that fail or are undone - and refuses (and reports) any whose cleaned absolute path is outside the data and log directories; a sentinel tree catches writers that bypass the seam.",
    note=TRUST + " Reads of the fixed configured locations defaultDBs/, static/, server.yaml, /proc are allowed. Scroll ids are not driven."),
  "C16": dict(level="exploration", ref="DESIGN.md §4 C16",
-   technique="deterministic simulation on the fake clock under the seeded scheduler: logical events delivered through the real HTTP routes of four protocols at known simulated instants, with clock jumps between receipt, flush and query; stored fields and times compared with the protocol mapping and the carried / arrival time",
+   technique="deterministic simulation on the fake clock under the seeded scheduler: logical events delivered through the real HTTP routes of five protocols (ES bulk/doc, Splunk HEC, Loki, OTLP logs protobuf) at known simulated instants, with clock jumps between receipt, flush and query; stored fields and times compared with the protocol mapping and the carried / arrival time",
    text="The fake clock makes 'the time of arrival is used only when the event has no time of its own' an exact equality: each event's stored time must be its carried time, or lie in the simulated arrival interval iff none was carried, even though minutes (in one thorough run in twenty: hours) of simulated time pass before the flush and before the query. Fields, numbers and messages must be preserved under each protocol's mapping.",
    note=TRUST + " Driven: Elasticsearch bulk and single-document, Splunk HEC, Loki push JSON. Not driven: OTLP logs/traces/metrics (protobuf), Prometheus remote write; OpenTSDB put is covered by C08."),
  "C17": dict(level="exploration", ref="DESIGN.md §4 C17",
@@ -69,15 +69,15 @@ checks = {
    text="Query clients, a canceller, a stall-fault injector and a monitor run as tasks of the seeded scheduler against the real admission queue, time-out goroutines and query pipeline; because the simulator owns task creation, 'no goroutine of the query remains' is decided exactly by comparing the live task set with the pre-workload baseline; deadlocks, hangs, spins and panics of the node are violations.",
    note=TRUST + " Decides the lifecycle/schedule half of C17. 'For all byte strings' parser totality is a pure input property: only a pool of malformed texts is sampled. Memory starvation is provoked through the configured memory budget (the limiter's refusal), not through failing Go allocations."),
  "C18": dict(level="fault_enumeration", ref="DESIGN.md §4 C18",
-   technique="deterministic simulation with damage enumeration: every truncation length and every byte x {bit flip, 0x00, 0xFF} of every file of a small deterministic node (log and metrics segments) applied between incarnations; a fresh process boots and runs a query suite compared row by row with the undamaged answers",
+   technique="deterministic simulation with damage enumeration: every truncation length and every byte x {bit flip, 0x00, 0xFF} of every file of a small deterministic node (log and metrics segments) applied between incarnations (a fresh process boots and runs a query suite) and, for every fourth damage, also under the running node between two passes of the suite; answers compared row by row with the undamaged answers",
    text="Damage faults are applied by the driver to the stored files between two incarnations; the real start-up and query code runs on the damaged tree. Per query: every returned row must equal the undamaged row (altered values from a checksummed column block are never accepted), rows may be missing only with a reported error and only from queries touching the damaged file, no crash, no hang. Thorough enumerates the space until the time budget; exhaustive is claimed only when everything was run.",
    note=TRUST + " One damage at a time; the query suite is fixed (9 queries). Many robustness defects of unchecksummed metadata files are recorded as known findings; altered values from .csg blocks are not among them and fail the check."),
  "C12": dict(level="exploration", ref="DESIGN.md §4 C12",
-   technique="deterministic simulation on the fake clock: seeded span forests exported over OTLP/HTTP protobuf to the real ingest route in seeded order and batching across two windows of the node's own 5-minute RED job, optional kill/graceful restart; trace list (all pages), trace count, span trees, dependency matrix and RED rows compared with an independent computation over the forest",
+   technique="deterministic simulation on the fake clock: seeded span forests exported over OTLP/HTTP protobuf to the real ingest route in seeded order and batching across two windows of the node's own 5-minute RED job, optional kill/graceful restart, and (one case in forty) the node's own hourly dependency-graph job over two simulated hours with the aggregated-graph route; trace list (all pages), trace count, span trees, dependency matrix and RED rows compared with an independent computation over the forest",
    text="The views depend on history (order and batching of the export requests, flushed vs unflushed data, which process wrote the spans) and on the clock (the RED job computes its rows from what arrived in the last five simulated minutes); both are driven by the simulator. Each arrived span must be covered by exactly one RED run; every well-formed trace must be listed once with the root's service/operation and exact span and error counts; a span tree must contain every span once beneath its parent also for traces larger than the 1000-span page; the dependency matrix must count exactly the cross-service parent/child pairs also beyond one result page; malformed traces (missing parent, two roots, cycle, duplicate span) may be refused or partial but must not crash, hang, show foreign spans or take other traces' answers down.",
    note=TRUST + " The hourly DependencyGraphThread and the aggregated /dependencies route are not reached (the on-demand generate-dep-graph route is). Jaeger routes are not driven. Root start/end times are compared to 1 us (they pass through float64). Span times lie within 3 s of the export instant."),
  "C20": dict(level="exploration", ref="DESIGN.md §4 C20",
-   technique="deterministic simulation on the fake clock with restarts and a seeded scheduler: (A) the node's own alert cron jobs evaluate generated log alerts over seeded per-minute event batches with seeded webhook delivery failures; history, state and recorded deliveries compared with the N-window state machine over a reference aggregate evaluator; (B) seeded create/update/rename/move/delete/list histories with kill and graceful restarts, interleaved organisations and concurrent clients against the real handlers of dashboards, folders, saved queries, index aliases, lookup files, contact points and alerts, compared operation by operation with a keyed-store reference model; (C) crash-point enumeration inside the operations of the file-backed stores: the process exits after a mutating fs call of an operation, the next incarnation boots and reads everything back",
+   technique="deterministic simulation on the fake clock with restarts and a seeded scheduler: (A) the node's own alert cron jobs evaluate generated log alerts over seeded per-minute event batches with seeded webhook delivery failures and alert edits in mid-run; history, state and recorded deliveries compared with the N-window state machine over a reference aggregate evaluator; (B) seeded create/update/rename/move/delete/list histories with kill and graceful restarts, interleaved organisations and concurrent clients against the real handlers of dashboards, folders, saved queries, index aliases, lookup files, contact points and alerts, compared operation by operation with a keyed-store reference model; (C) crash-point enumeration inside the operations of the file-backed stores: the process exits after a mutating fs call of an operation, the next incarnation boots and reads everything back",
    text="A: simulated minutes cost milliseconds, so 5-21 minute alert histories (1-3 concurrent alerts, 8 query shapes, 5 conditions, interval 1-3 min, window N x interval) run against the real gocron scheduler, sqlite store, query engine and notification handler; every history row must follow Firing iff all of the last N outcomes held / Pending iff the latest but not all / Normal otherwise; evaluations once per interval (also after a restart); notifications exactly one per Firing evaluation (cool-down is 0 in this store), one on return to Normal after a delivered Firing. B: 15-120 operation histories over a per-run subset of seven stores and 1-3 organisations, with repeated and unusual names, stale and foreign ids, restarts (killed or graceful) at seeded positions followed by a full read-back, and a phase of 2-4 concurrent clients owning disjoint objects under seeded pre-emption; an operation is applied to the model iff the node acknowledged it, valid operations must be acknowledged and invalid ones refused, every read/list must equal the model, foreign organisations must not be able to change an object. C: for seeded histories over dashboards/folders, saved queries, aliases and lookup files every mutating fs call made by the operations (quick: 30 sampled per history, thorough: all) is a crash point; afterwards the node must start, the operation in flight may or may not have taken effect, and every other object must read back as last acknowledged.",
    note=TRUST + " Metric alerts are not driven. An ungrouped sum/min/max/avg over an empty window is left undefined (engine answers 0, SPL null). sqlite does its own real file I/O outside the disk seam, so crashes inside contact/alert operations are not enumerated (they are restarted at operation boundaries); crashes inside the file-backed stores are (part C). Organisations other than 0 are reached through the handlers' myid parameter. Lookup files go through the real HTTP route."),
  "C01": dict(level="exploration", ref="DESIGN.md §4 C01",
